@@ -164,7 +164,48 @@ def ob_allow_list(report):
             if el is None:
                 return NotImplemented
             k(p, Sym(f'collected{p.seq("coll")}', call.retty).with_ov('elements', el))
-        models = [(r'Request::peer_id$', m_peer_id), (r'as IntoResponse>::into_response$', m_into_response),
+        def m_iter_map(ex, p, call, k):
+            # Iterator::map over the finite list: the closure is applied to each of the known elements, in order
+            src = call.args[0]
+            el = src.get_ov('elements') if isinstance(src, Sym) else (src if isinstance(src, Agg) and src.kind == 'array' else None)
+            if el is None:
+                return NotImplemented
+            items = list(el.fields)
+
+            def step(q, i, acc):
+                if i == len(items):
+                    return k(q, Sym(f'mapped{q.seq("mapped")}', call.retty).with_ov('elements', Agg('[]', None, tuple(acc), 'array')))
+                ex.call_closure(q, call.args[1], [items[i]], call, lambda q2, r: step(q2, i + 1, acc + [r]))
+            step(p, 0, [])
+
+        def m_assoc_get(ex, p, call, k):
+            # HashMap::get on a map collected from a finite list of (key, value) pairs: the pair inserted last under an equal key wins
+            s = ex.deref(p, call.args[0])
+            key = ex.deref(p, call.args[1]) if isinstance(call.args[1], Ptr) else call.args[1]
+            el = s.get_ov('elements') if isinstance(s, Sym) else None
+            if el is None or not all(isinstance(x, Agg) and x.kind == 'tuple' and len(x.fields) == 2 for x in el.fields) or not isinstance(key, z3.ExprRef):
+                return NotImplemented
+            p.events.append(Event('membership', call.short, (s, key)))
+            pairs = list(el.fields)
+            rest = []
+            for x in reversed(pairs):
+                kx, vx = x.fields
+                if not (isinstance(kx, z3.ExprRef) and kx.sort() == key.sort()):
+                    return NotImplemented
+                cond = z3.And([key == kx] + rest)
+                if ex.feasible(p.pc, cond):
+                    q = p.clone()
+                    q.pc.append(cond)
+                    cell = ('H', f'assoc-val{q.seq("assocval")}', '')
+                    q.mem[cell] = vx
+                    k(q, MD.some(Ptr(cell)))
+                rest.append(key != kx)
+            none = z3.And(rest) if rest else z3.BoolVal(True)
+            if ex.feasible(p.pc, none):
+                q = p.clone()
+                q.pc.append(none)
+                k(q, MD.NONE)
+        models = [(r'Request::peer_id$', m_peer_id), (r'as IntoResponse>::into_response$', m_into_response), (r'Iterator>::map$', m_iter_map), (r'(HashMap|BTreeMap)::get$', m_assoc_get),
                   (r'(HashSet|BTreeSet|Vec|slice)::contains$|HashSet::get$', m_contains), (r'(HashSet|BTreeSet|Vec|slice)::(is_empty|len)$', m_size),
                   (r'as IntoIterator>::into_iter$|Iterator>::collect$|FromIterator>::from_iter$|Iterator>::copied$|Iterator>::cloned$', m_collect)]
         ex = e2.executor('anemo-tower', models, max_depth=4, unroll=80)
